@@ -212,6 +212,12 @@ def _rio_reproject(
     src, src_is_bool = _alias_or_convert(src)
     _dst, _ = _alias_or_convert(dst)
 
+    # bool pixels are stretched to [0, 255], nodata has to follow
+    if src_is_bool and src_nodata is not None:
+        src_nodata = 255 if src_nodata else 0
+    if dst.dtype.name == "bool" and dst_nodata is not None:
+        dst_nodata = 255 if dst_nodata else 0
+
     rasterio.warp.reproject(
         src,
         _dst,
